@@ -6,9 +6,10 @@ require (
 	github.com/absolute8511/redcon v0.9.3
 	github.com/youzan/ZanRedisDB v0.0.0
 	github.com/youzan/go-zanredisdb v0.6.3
+	google.golang.org/grpc v1.9.2
 )
 
-replace github.com/youzan/ZanRedisDB => /tmp/sv-C16-7793
+replace github.com/youzan/ZanRedisDB => /tmp/sv-C19-21585
 
 replace github.com/youzan/gorocksdb => /verif/build/third_party/gorocksdb
 
